@@ -36,7 +36,15 @@ DISPATCHERS = {
 def check_exits(ctx, prop, extra=()):
     ref = normal.reference().get('functions', {})
     specs = list(DISPATCHERS[prop])
-    for k in extra:           # helpers reached through the call graph (run.py passes the closure of the property's anchored functions)
+    import json, os
+    covered = set()
+    ap = os.path.join(os.path.dirname(os.path.dirname(os.path.abspath(__file__))), 'anchors.json')
+    if os.path.exists(ap):
+        for v in json.load(open(ap)).values():
+            covered.update(v)
+    for k in extra:
+        if '%s:%s%s' % (k[0], (k[1] + '.') if k[1] else '', k[2]) in covered:
+            continue          # judged by its own obligations           # helpers reached through the call graph (run.py passes the closure of the property's anchored functions)
         s_ = '%s:%s%s' % (k[0], (k[1] + '.') if k[1] else '', k[2])
         if s_ not in specs and s_ in ref and not k[2].startswith('__repr') and k[0] not in ('_logger', '_file', '_tree_repr', '_encode', '_parquet'):
             specs.append(s_)
